@@ -235,7 +235,7 @@ fn check(e: &Expression, recs: Vec<FileRecord>, all_run: bool, case: &str, rep: 
     rep.evaluations += 1;
     let mreq = matcher_requests(e);
     let preq = printer_requests(e);
-    match validate(e, &opts_default(), &mut |_| recs.clone()) {
+    match validate(e, &crate::sut::opts_for(crate::rng::hash_str(case)), &mut |_| recs.clone()) {
         Tv::Skip(_) => rep.skipped_unspecified += 1,
         Tv::Refused(m) => rep.violation("C11:refused", &format!("supported tree refused: {}", m), case, J::Null),
         Tv::Bad { kind, what, mut detail } => {
